@@ -369,6 +369,36 @@ Fixpoint m_cmp (a b : list Z) : Z :=
   | [], _ :: _ => (-1)%Z
   | _ :: _, [] => 1%Z
   end.
+(* the static compare loops on two C strings (with and without a length bound) run over two NUL-terminated texts *)
+Fixpoint m_compare (fuel : nat) (a b : list Z) : Z :=
+  match fuel with
+  | O => 0%Z
+  | S f =>
+    let x := hd 0%Z a in let y := hd 0%Z b in
+    if (x =? y)%Z then (if (x =? 0)%Z then 0%Z else m_compare f (tl a) (tl b)) else (x - y)%Z
+  end.
+Fixpoint m_compare_n (n : nat) (a b : list Z) : Z :=
+  match n with
+  | O => 0%Z
+  | S f =>
+    let x := hd 0%Z a in let y := hd 0%Z b in
+    if (x =? 0)%Z || negb (x =? y)%Z then (x - y)%Z else m_compare_n f (tl a) (tl b)
+  end.
+
+(* the static length / find(in, char) / findLast(in, char) on a C string: loops up to the terminator *)
+Fixpoint m_strlen (l : list Z) : nat :=
+  match l with [] => O | x :: t => if (x =? 0)%Z then O else S (m_strlen t) end.
+Fixpoint m_sfind (l : list Z) (c : Z) (i : nat) : Z :=
+  match l with
+  | [] => (-1)%Z
+  | x :: t => if (x =? 0)%Z then (-1)%Z else if (x =? c)%Z then Z.of_nat i else m_sfind t c (S i)
+  end.
+Fixpoint m_sfindlast (l : list Z) (c : Z) (i : nat) (last : Z) : Z :=
+  match l with
+  | [] => last
+  | x :: t => if (x =? 0)%Z then last else m_sfindlast t c (S i) (if (x =? c)%Z then Z.of_nat i else last)
+  end.
+
 Definition sgn (z : Z) : Z := if (z <? 0)%Z then (-1)%Z else if (0 <? z)%Z then 1%Z else 0%Z.
 Definition lowt := tbl gen_lowerCaseMap.
 Definition uppt := tbl gen_upperCaseMap.
@@ -416,6 +446,22 @@ Fixpoint pop_n (w : world) (k : nat) : res world :=
   match k with
   | O => Ok w
   | S k' => do w1 <- pop_var w; pop_n w1 k'
+  end.
+
+(* the static helpers on the C-string views a ++ [0], b ++ [0] of two texts; startsWith(in, str) is
+   compare(in, str.data->str, str.data->len) == 0; equalsIgnoreCase(other, len) is the (repaired)
+   member compareIgnoreCase(other, len) == 0 *)
+Definition m_stat (q : squery) (a b : list Z) : Z :=
+  match q with
+  | QCompare => sgn (m_compare (S (length a)) (a ++ [0%Z]) (b ++ [0%Z]))
+  | QCompareN n => sgn (m_compare_n n (a ++ [0%Z]) (b ++ [0%Z]))
+  | QCompareIC => sgn (m_compare (S (length a)) (map lowt a ++ [0%Z]) (map lowt b ++ [0%Z]))
+  | QCompareICN n => sgn (m_compare_n n (map lowt a ++ [0%Z]) (map lowt b ++ [0%Z]))
+  | QEqualsICN n => b2z (m_cmp (map lowt (firstn n a)) (map lowt (firstn n b)) =? 0)%Z
+  | QStartsWith => b2z (m_compare_n (length b) (a ++ [0%Z]) (b ++ [0%Z]) =? 0)%Z
+  | QLength => Z.of_nat (m_strlen (a ++ [0%Z]))
+  | QFindC c => m_sfind (a ++ [0%Z]) c 0
+  | QFindLastC c => m_sfindlast (a ++ [0%Z]) c 0 (-1)%Z
   end.
 
 (* ---- String::printf, repaired ---- *)
@@ -600,6 +646,29 @@ Definition exec (w : world) (o : op) : res (world * out) :=
     do n <- d_len w1 h;
     (* "%s" reads the text p points to: the data v had before the call *)
     printf_m w1 v (fun w' => do cs <- d_read w' h 0 n; Ok (a ++ map cval cs ++ b))
+  | OEqLit v l =>
+    (* data->len == N - 1 && Memory::compare(data->str, str, N - 1) == 0 *)
+    do a <- var_bytes w v;
+    Ok (w, RInt (b2z ((length a =? length l) && list_eqb a l)))
+  | OSplitSet v seps skip =>
+    do w1 <- cstr w v;
+    do bs <- var_bytes w1 v;
+    Ok (w1, RList (set_of (m_split_loop (S (length bs)) seps bs skip)))
+  | OFromPrintf l =>
+    (* String s(200); vsnprintf into it; too small: s.detach(0, result) and again; the new variable is s *)
+    let t := length (vars w) in
+    do w1 <- push_owned w [] 200;
+    if length l <? 200 then
+      do w2 <- v_write w1 t 0 (map Some l ++ [Some 0%Z]);
+      ret (v_setlen w2 t (length l)) RNone
+    else
+      do w2 <- v_write w1 t 0 (map Some (firstn 199 l) ++ [Some 0%Z]);
+      do w3 <- detach w2 t 0 (length l);
+      do w4 <- v_write w3 t 0 (map Some l ++ [Some 0%Z]);
+      ret (v_setlen w4 t (length l)) RNone
+  | OStat q v u =>
+    do a <- var_bytes w v; do b <- var_bytes w u;
+    Ok (w, RInt (m_stat q a b))
   end.
 
 (* the value a variable denotes, and the reference state a world denotes *)
